@@ -144,7 +144,11 @@ func genC12(t *rapid.T) any {
 			c.Stale = ""
 		}
 	}
-	c.Label = rapid.SampledFrom([]string{"", "DATA", "BOOT DISK", "MYLABEL1234", "a"}).Draw(t, "label")
+	labels := []string{"", "DATA", "BOOT DISK", "MYLABEL1234", "a"}
+	if c.T == "ext4" {
+		labels = append(labels, "SIXTEEN-BYTE-LBL", "fifteen-bytes-l") // the superblock field holds 16 bytes, no terminator when full
+	}
+	c.Label = rapid.SampledFrom(labels).Draw(t, "label")
 	if c.T == "fat32" && c.Place != "mbr" && rapid.IntRange(0, 2).Draw(t, "lss4k") == 0 {
 		// FAT32 is the one writable type that accepts 4096-byte sectors
 		c.LSS = 4096
